@@ -2,6 +2,7 @@ package gosym
 
 import (
 	"fmt"
+	"os"
 	"go/token"
 	"go/types"
 	"strings"
@@ -63,6 +64,7 @@ type frame struct {
 	panicVal  *goPanic
 	visits    map[int]int
 	recovered bool
+	skipPhis  bool
 }
 
 func (fr *frame) get(v ssa.Value) Value {
@@ -244,8 +246,16 @@ func (fr *frame) run() {
 		if st.steps > st.cfg.MaxSteps {
 			st.end("unwind", fmt.Sprintf("step budget %d exceeded in %s", st.cfg.MaxSteps, fr.fn))
 		}
+		skip := fr.skipPhis
+		fr.skipPhis = false
 	instrs:
 		for _, in := range b.Instrs {
+			if skip {
+				if _, isPhi := in.(*ssa.Phi); isPhi {
+					continue
+				}
+				skip = false
+			}
 			switch fr.visit(in) {
 			case kReturn:
 				return
@@ -343,6 +353,14 @@ func (fr *frame) visit(instr ssa.Instruction) cont {
 		st.storeThrough(fr.get(in.Addr), fr.get(in.Val))
 	case *ssa.If:
 		c := fr.get(in.Cond).(*Term)
+		if !c.IsConst() && fr.tryMerge(in, c) {
+			return kJump
+		}
+		if c.size > 3000 && os.Getenv("VERIF_DEBUG_BIG") != "" {
+			sy := map[string]uint8{}
+			c.Syms(sy)
+			fmt.Fprintf(os.Stderr, "BIG cond size=%d in %s at %s syms=%v pc=%s\n", c.size, fr.fn, posStr(st, in.Cond.Pos()), sy, st.pcString())
+		}
 		succ := 1
 		if st.Branch(c) {
 			succ = 0
